@@ -47,7 +47,7 @@ SHARDS = {"quick": 8, "thorough": 16}
 import os as _os
 # PVM_C07_SHARD_TIMEOUT: longer watchdog for runs on a heavily loaded machine
 SHARD_TIMEOUT = {"quick": 900,
-                 "thorough": int(_os.environ.get("PVM_C07_SHARD_TIMEOUT", 3300))}
+                 "thorough": int(_os.environ.get("PVM_C07_SHARD_TIMEOUT", 7200))}
 
 K_D16 = "config-context-module-global-shared-across-threads"
 K_D17 = "pandas-shared-column-coerce-dtype-override-unsynchronised"
